@@ -104,65 +104,105 @@ theorem scanSQ_escSingle (rest : Str) (hr : NoQuoteHead rest) : ∀ (s : Str), s
       · simp [scanSQ, h1, h2, hn'.1, (ih _).1]
       · simp [scanSQ, h1, h2, hn'.1, (ih _).1]
 
-/-! ### unquoted, key mode -/
+/-! ### unquoted, key mode (inside or outside an edge group: `e`) -/
 
 theorem dash_not_stop : '-' ∉ uqStopTop ∧ '-' ∉ uqStopKey := by decide
 theorem dot_stop : '.' ∉ uqStopTop ∧ '.' ∈ uqStopKey := by decide
+theorem lt_stop : '<' ∉ uqStopTop ∧ '<' ∈ uqStopKey := by decide
+theorem paren_in_key : keySpecials.contains ')' = true := by decide
+theorem space_plain : keySpecials.contains ' ' = false := by decide
 theorem nmem_of_contains {l : List Char} {c : Char} (h : l.contains c = false) : c ∉ l := by simpa using h
 
-theorem uqk_normal_plain {c : Char} (X acc : Str) (h : keySpecials.contains c = false) :
-    scanUQ true .normal (c :: X) acc = scanUQ true .normal X (c :: acc) := by
+theorem key_plain_paren {c : Char} (h : keySpecials.contains c = false) : c ≠ ')' := by
+  intro he; subst he; rw [paren_in_key] at h; cases h
+
+theorem uqk_normal_plain {e : Bool} {c : Char} (X acc : Str) (h : keySpecials.contains c = false) :
+    scanUQ true e .normal (c :: X) acc = scanUQ true e .normal X (c :: acc) := by
   have h1 := nmem_of_contains (not_stopTop_of_key h)
   have h2 := nmem_of_contains (not_stopKey_of_key h)
+  have hp := key_plain_paren h
   obtain ⟨hd, hb, _⟩ := key_plain_char h
-  simp [scanUQ, uqStep, uqNormal, uqRaw, h1, h2, hd, hb]
+  simp [scanUQ, uqStep, uqNormal, uqRaw, h1, h2, hd, hb, hp]
 
-theorem uqk_normal_dash (X acc : Str) : scanUQ true .normal ('-' :: X) acc = scanUQ true .dash X acc := by
+theorem uqk_normal_dash {e : Bool} (X acc : Str) : scanUQ true e .normal ('-' :: X) acc = scanUQ true e .dash X acc := by
   simp [scanUQ, uqStep, uqNormal, dash_not_stop.1, dash_not_stop.2]
 
-theorem uqk_dash_plain {d : Char} (X acc : Str) (h : keySpecials.contains d = false) :
-    scanUQ true .dash (d :: X) acc = scanUQ true .normal X (d :: '-' :: acc) := by
+theorem uqk_dash_plain {e : Bool} {d : Char} (X acc : Str) (h : keySpecials.contains d = false) :
+    scanUQ true e .dash (d :: X) acc = scanUQ true e .normal X (d :: '-' :: acc) := by
   have h1 := nmem_of_contains (not_stopTop_of_key h)
   obtain ⟨hd, hb, _, _, _, _, _, _, hgt, hst, _⟩ := key_plain_char h
   simp [scanUQ, uqStep, uqRaw, h1, hd, hb, hgt, hst]
 
-theorem uqk_end {rest : Str} (h : RestOk rest) (acc : Str) : scanUQ true .normal rest acc = .ok acc rest := by
+/-- how an unquoted key segment ends when `term` follows it: the scanner pushes the spaces `w` and stops with
+    `rest'` left -/
+structure UQEnd (e : Bool) (term w rest' : Str) : Prop where
+  scan : ∀ acc, scanUQ true e .normal term acc = .ok (w ++ acc) rest'
+  spaces : ∀ c ∈ w, isSpace c = true
+
+theorem uqk_end {e : Bool} {rest : Str} (h : RestOk rest) (acc : Str) : scanUQ true e .normal rest acc = .ok acc rest := by
   rcases h with rfl | ⟨r, rfl⟩
   · simp [scanUQ]
   · simp [scanUQ, uqStep, uqNormal, dot_stop.1, dot_stop.2]
 
-theorem scanUQ_keyPlain {rest : Str} (hr : RestOk rest) : ∀ (s acc : Str), keyPlain s = true →
-    scanUQ true .normal (s ++ rest) acc = .ok (s.reverse ++ acc) rest
-  | [], acc, _ => by simp [uqk_end hr]
+theorem uqEnd_restOk {e : Bool} {rest : Str} (h : RestOk rest) : UQEnd e rest [] rest :=
+  ⟨fun acc => by simpa using uqk_end h acc, by simp⟩
+
+/-- a space and an arrow that starts with `-`: ` ->` or ` --` -/
+theorem uqEnd_arrowDash {e : Bool} {c : Char} (X : Str) (hc : c = '>' ∨ c = '-') :
+    UQEnd e (' ' :: '-' :: c :: X) [' '] ('-' :: c :: X) := by
+  refine ⟨fun acc => ?_, by intro c hc; simp at hc; subst hc; decide⟩
+  rw [uqk_normal_plain _ _ space_plain, uqk_normal_dash]
+  have : '>' ∉ uqStopTop ∧ '-' ∉ uqStopTop := by decide
+  rcases hc with rfl | rfl <;> simp [scanUQ, uqStep, this.1, this.2]
+
+/-- a space and an arrow that starts with `<` -/
+theorem uqEnd_arrowLt {e : Bool} (X : Str) : UQEnd e (' ' :: '<' :: X) [' '] ('<' :: X) := by
+  refine ⟨fun acc => ?_, by intro c hc; simp at hc; subst hc; decide⟩
+  rw [uqk_normal_plain _ _ space_plain]
+  simp [scanUQ, uqStep, uqNormal, lt_stop.1, lt_stop.2]
+
+/-- the closing parenthesis of an edge group, followed by the index -/
+theorem uqEnd_close (X : Str) : UQEnd true (')' :: '[' :: X) [] (')' :: '[' :: X) := by
+  refine ⟨fun acc => ?_, by simp⟩
+  have : isSpace '[' = false := by decide
+  simp [scanUQ, uqStep, uqNormal, closeParenStops, skipSpacesNL, this]
+
+theorem scanUQ_keyPlain' {e : Bool} {term w rest' : Str} (hr : UQEnd e term w rest') : ∀ (s acc : Str), keyPlain s = true →
+    scanUQ true e .normal (s ++ term) acc = .ok (w ++ (s.reverse ++ acc)) rest'
+  | [], acc, _ => by simp [hr.scan]
   | [c], acc, h => by
     have hc : keySpecials.contains c = false := by simpa [keyPlain] using h
-    simp [uqk_normal_plain _ _ hc, uqk_end hr]
+    simp [uqk_normal_plain _ _ hc, hr.scan]
   | c :: d :: t, acc, h => by
     by_cases hd : c = '-'
     · subst hd
       have h' : d ≠ '-' ∧ keyPlain (d :: t) = true := by simpa [keyPlain] using h
       have h'' := keyPlain_cons_ne h'.2 h'.1
       simp only [List.cons_append]
-      rw [uqk_normal_dash, uqk_dash_plain _ _ h''.1, scanUQ_keyPlain hr t _ h''.2]
+      rw [uqk_normal_dash, uqk_dash_plain _ _ h''.1, scanUQ_keyPlain' hr t _ h''.2]
       simp
     · have h' := keyPlain_cons_ne h hd
       simp only [List.cons_append]
       rw [uqk_normal_plain _ _ h'.1]
-      have := scanUQ_keyPlain hr (d :: t) (c :: acc) h'.2
+      have := scanUQ_keyPlain' hr (d :: t) (c :: acc) h'.2
       simp only [List.cons_append] at this
       rw [this]
       simp
 
+theorem scanUQ_keyPlain {e : Bool} {rest : Str} (hr : RestOk rest) (s acc : Str) (h : keyPlain s = true) :
+    scanUQ true e .normal (s ++ rest) acc = .ok (s.reverse ++ acc) rest := by
+  simpa using scanUQ_keyPlain' (uqEnd_restOk hr) s acc h
+
 /-! ### unquoted, value mode -/
 
 theorem uqv_plain {c : Char} (X acc : Str) (h : valueSpecials.contains c = false) :
-    scanUQ false .normal (c :: X) acc = scanUQ false .normal X (c :: acc) := by
+    scanUQ false false .normal (c :: X) acc = scanUQ false false .normal X (c :: acc) := by
   have h1 := nmem_of_contains (not_stopTop_of_value h)
   obtain ⟨hb, _, _, _, hdl, _⟩ := value_plain_char h
   simp [scanUQ, uqStep, uqNormal, uqRaw, h1, hb, hdl]
 
 theorem scanUQ_valuePlain : ∀ (s acc : Str), containsAny s valueSpecials = false →
-    scanUQ false .normal s acc = .ok (s.reverse ++ acc) []
+    scanUQ false false .normal s acc = .ok (s.reverse ++ acc) []
   | [], acc, _ => by simp [scanUQ]
   | c :: t, acc, h => by
     have h' : valueSpecials.contains c = false ∧ containsAny t valueSpecials = false := by
@@ -193,6 +233,14 @@ theorem sw_trim {s : Str} (hne : s ≠ []) (h : surroundingWs s = false) :
       unfold surroundingWs at h
       simp only [List.head?_cons, hl, Bool.or_eq_false_iff] at h
       simp [List.dropWhile, h.2]
+
+theorem sw_trim' {s : Str} (hne : s ≠ []) (h : surroundingWs s = false) : ∀ (w : Str), (∀ c ∈ w, isSpace c = true) →
+    (w ++ s.reverse).dropWhile isSpace = s.reverse
+  | [], _ => by simpa using sw_trim hne h
+  | c :: w, hw => by
+    have hc := hw c (by simp)
+    simp only [List.cons_append, List.dropWhile, hc]
+    exact sw_trim' hne h w (fun x hx => hw x (by simp [hx]))
 
 theorem skipSpacesNL_cons {c : Char} (X : Str) (h : isSpace c = false) : skipSpacesNL (c :: X) = some (c, X) := by
   simp [skipSpacesNL, h]
